@@ -145,7 +145,7 @@ class EffTranslator(base.FnTranslator):
         opaque = list(spec.get("opaque", []))
         need_exc = self.raises or any(e.get("raises") for e in effs)
         self.abstract_loops = dict(spec.get("abstract_loops", {}))
-        need_ev = any(e.get("event") for e in effs) or bool(self.abstract_loops)
+        need_ev = any(e.get("event") for e in effs) or bool(self.abstract_loops) or bool(spec.get("submit"))
         if need_exc and "exc" not in opaque:
             opaque.append("exc")
         if need_ev and "ev" not in opaque:
@@ -166,6 +166,8 @@ class EffTranslator(base.FnTranslator):
                 raise Unsupported("constant %r in the spec is not a dotted name" % k, node, self.qual)
         un = spec.get("untracked", {})
         self.untracked_targets, self.untracked_sources = list(un.get("targets", [])), list(un.get("sources", []))
+        self.silent = list(spec.get("silent", []))          # logging calls: like print
+        self.submit = spec.get("submit")                    # the joblib idiom, see submit_stmt
         self.volatile = {r: list(fs) for r, fs in spec.get("volatile", {}).items()}
         for r, fs in self.volatile.items():
             if r not in self.records or any(f not in dict(self.records[r]) for f in fs):
@@ -184,7 +186,7 @@ class EffTranslator(base.FnTranslator):
             if t in [w for w, _ in self.writes] or t in [a for a, _ in self.attrs]:
                 raise Unsupported("untracked target %s is also declared as an attribute" % t, node, self.qual)
         # the names the base class consults to join the event log through an `if`
-        self.events = [e.name for e in self.effects.values() if e.event]
+        self.events = [e.name for e in self.effects.values() if e.event] or (["<event log>"] if need_ev else [])
         self.has_evlog = need_ev
         first = ("outcome", self.val_type if self.val_type is not None else "unit") if self.raises else self.val_type
         ts = ([first] if first is not None else []) + [t for _, t in self.writes] + ([("list", "ev")] if self.has_evlog else [])
@@ -202,6 +204,7 @@ class EffTranslator(base.FnTranslator):
         self.owned = {}
         self.nexc = 0
         self.abstracted = {}
+        self.submit_type = None
 
     def evlog_elem(self):
         return "ev"
@@ -214,6 +217,9 @@ class EffTranslator(base.FnTranslator):
                 if isinstance(nd, ast.Call) and dotted(nd.func) in self.events and "evlog" not in out:
                     out.append("evlog")
                 if isinstance(nd, ast.For) and self.loop_header(nd) in self.abstract_loops and "evlog" not in out:
+                    out.append("evlog")
+                if self.submit and isinstance(nd, ast.Call) and isinstance(nd.func, ast.Call) \
+                        and dotted(nd.func.func) == self.submit.get("pool") and "evlog" not in out:
                     out.append("evlog")
                 if isinstance(nd, ast.Call) and dotted(nd.func) in self.effects:
                     # attributes that an effect assigns (`sets`)
@@ -249,6 +255,8 @@ class EffTranslator(base.FnTranslator):
         for hdr, nm in self.abstract_loops.items():
             if hdr in self.abstracted:
                 out.append(("ev_loop_" + nm, "%s -> ev" % coq_type(self.abstracted[hdr])))
+        if self.submit_type is not None:
+            out.append(("ev_submit", "(list %s) -> ev" % coq_type(self.submit_type)))
         for e in self.effects.values():
             if e.name in self.used_evs:
                 out.append(("ev_" + e.var, " -> ".join(e.arg_types(self, self.recv_rec.get(e.name)) + ["ev"])))
@@ -477,6 +485,22 @@ class EffTranslator(base.FnTranslator):
                 return True
             if f in ("str", "repr", "type") and f not in env and f not in self.shadowed_extra and len(e.args) == 1:
                 return self.inert(e.args[0], env)
+            if isinstance(e.func, ast.Attribute) and e.func.attr == "format" and isinstance(e.func.value, ast.Constant) \
+                    and isinstance(e.func.value.value, str):
+                return all(self.inert(a, env) for a in e.args)
+        return False
+
+    def untracked_expr(self, e, env):
+        """an expression over the untracked sources / targets only (time stamps and their differences)"""
+        if isinstance(e, ast.Constant) and isinstance(e.value, (int, float)):
+            return True
+        if isinstance(e, ast.Call):
+            return dotted(e.func) in self.untracked_sources and not e.args and not e.keywords \
+                and dotted(e.func).split(".")[0] not in env
+        if isinstance(e, (ast.Name, ast.Attribute, ast.Subscript)):
+            return self.target_key(e) in self.untracked_targets and self.target_key(e) not in env
+        if isinstance(e, ast.BinOp):
+            return self.untracked_expr(e.left, env) and self.untracked_expr(e.right, env)
         return False
 
     def target_key(self, t):
@@ -496,12 +520,16 @@ class EffTranslator(base.FnTranslator):
             raise self.err("observable effects inside a while loop", s)
         if isinstance(s, ast.Expr) and isinstance(s.value, ast.Call):
             f = dotted(s.value.func)
-            if f == "print" and "print" not in env:
-                if "print" in self.shadowed_extra:
+            if (f == "print" and "print" not in env) or (f in self.silent and f not in self.effects):
+                if f == "print" and "print" in self.shadowed_extra:
                     raise self.err("the module rebinds the builtin 'print'", s)
+                if f != "print" and f.split(".")[0] in env and env[f.split(".")[0]] != "obj":
+                    raise self.err("call through the local name %r" % f.split(".")[0], s)
                 if not all(self.inert(a, env) for a in list(s.value.args) + [kw.value for kw in s.value.keywords]):
-                    raise self.err("print() of an expression that is not a plain value", s)
+                    raise self.err("%s() of an expression that is not a plain value" % f, s)
                 return self.block(rest, env, ctx, k)
+            if self.submit and isinstance(s.value.func, ast.Call) and dotted(s.value.func.func) == self.submit.get("pool"):
+                return self.submit_stmt(s, rest, env, ctx, k)
             if f in self.effects:
                 return self.effect_stmt(s, self.effects[f], rest, env, ctx, k)
             m = mutation_of(s)
@@ -513,12 +541,12 @@ class EffTranslator(base.FnTranslator):
             tgt = s.targets[0]
             key = self.target_key(tgt)
             if key in self.untracked_targets:
-                if isinstance(s.value, ast.Call) and dotted(s.value.func) in self.untracked_sources and not s.value.args \
-                        and not s.value.keywords and dotted(s.value.func).split(".")[0] not in env:
+                if self.untracked_expr(s.value, env):
                     if isinstance(tgt, ast.Name) and tgt.id in env:
                         raise self.err("untracked target %r is a bound local" % tgt.id, s)
                     return self.block(rest, env, ctx, k)
-                raise self.err("assignment to the untracked target %s from other than %s()" % (key, self.untracked_sources), s)
+                raise self.err("assignment to the untracked target %s from other than %s() / untracked values"
+                               % (key, self.untracked_sources), s)
             if isinstance(tgt, (ast.Attribute, ast.Subscript)) and attr_key(tgt) and attr_key(tgt).split(".")[0] in self.owned \
                     and attr_key(tgt) not in [a for a, _ in self.writes]:
                 return self.owned_write(s, tgt, rest, env, ctx, k)
@@ -682,6 +710,57 @@ class EffTranslator(base.FnTranslator):
             k2 = self.lift(rest, env_k, ctx, k)
             cont[0] = lambda e: k2({v: e[v] for v in env_k})
         return self.block(list(s.body), env, tctx, cont[0])
+
+    def submit_stmt(self, s, rest, env, ctx, k):
+        """the joblib idiom `Pool(<config>)(wrap(F)(x) for x in xs if cond)` (spec: "submit": {"pool": "Parallel", "wrap":
+        "delayed", "call": "self.job.evaluate", "config": "<text of the keyword arguments>"}): the event
+        `ev_submit <the elements x of xs, in order, for which cond holds at submission>`.  What the pool does with the
+        submitted calls (threads, order of execution) is outside the translation; its configuration is pinned by text."""
+        sub = self.submit
+        outer, inner = s.value, s.value.func
+        if sub.get("pool", "").split(".")[0] in env:
+            raise self.err("the pool %s is a local name" % sub.get("pool"), s)
+        if inner.args or ", ".join(ast.unparse(kw) for kw in inner.keywords) != sub.get("config"):
+            raise self.err("the configuration of %s(...) is not the one the spec pins (%r)" % (sub.get("pool"), sub.get("config")), s)
+        if outer.keywords or len(outer.args) != 1 or not isinstance(outer.args[0], ast.GeneratorExp):
+            raise self.err("%s(...)(...) with other than one generator expression" % sub.get("pool"), s)
+        g = outer.args[0]
+        if len(g.generators) != 1 or getattr(g.generators[0], "is_async", 0) or not isinstance(g.generators[0].target, ast.Name):
+            raise self.err("submission generator with several clauses / a tuple target", s)
+        gen = g.generators[0]
+        v = gen.target.id
+        el = g.elt
+        if not (isinstance(el, ast.Call) and isinstance(el.func, ast.Call) and dotted(el.func.func) == sub.get("wrap")
+                and sub.get("wrap") not in env and len(el.func.args) == 1 and not el.func.keywords
+                and dotted(el.func.args[0]) == sub.get("call") and len(el.args) == 1 and not el.keywords
+                and isinstance(el.args[0], ast.Name) and el.args[0].id == v):
+            raise self.err("submitted element is not %s(%s)(%s)" % (sub.get("wrap"), sub.get("call"), v), s)
+        if v in env:
+            raise self.err("generator variable %r shadows a bound name" % v, s)
+        if "evlog" not in env:
+            raise self.err("submission outside the scope of the event log", s)
+
+        def build():
+            xs, t = self.expr(gen.iter, env)
+            if not base.is_list(t):
+                raise self.err("submission over a value of type %s" % (t,), s)
+            saved = self.loop_targets
+            self.loop_targets = self.loop_targets | {v}
+            try:
+                conds = [self.no_partial(lambda c=c: self.expr(c, dict(env, **{v: t[1]}), "bool")[0], "a generator condition", s)
+                         for c in gen.ifs]
+            finally:
+                self.loop_targets = saved
+            self.submit_type = t[1]
+            if not conds:
+                return xs
+            code = conds[-1]
+            for c in reversed(conds[:-1]):
+                code = "(andb %s %s)" % (c, code)
+            return "(filter (fun %s => %s) %s)" % (mangle(v), code, xs)
+        code, pre = self.with_pre(build)
+        inner_code = "let evlog := (evlog ++ [ev_submit %s]) in\n%s" % (code, self.block(rest, env, ctx, k))
+        return self.wrap(pre, inner_code, ctx, env)
 
     def abstract_loop(self, s, rest, env, ctx, k):
         """a designated loop that is translated on its own (body mode): one event per element, in order"""
